@@ -239,6 +239,9 @@ def run(tier):
         elif not x.get("ok") or x.get("out") != exp:
             C.violation(dict(k, kind="value"), "%s with %s: engine %s, expected %r" % (src, job["ctx"], repr(x.get("out")) if x.get("ok") else "error: " + (x.get("msg") or x.get("disp", ""))[:100], exp),
                         {"job": job, "expected": exp, "got": x})
+    # ---- the built-in consumers of Sites.tla on operands produced in every way (a literal, `not`, a test, a filter, a call ...)
+    import sites
+    sites.run(C, "C17", ["entry", "component", "set-block"], only=sites.BUILTIN_CONS)
     kk = len(meta) // 2
     C.sample({"src": meta[kk][0][:200], "ctx": jobs[kk]["ctx"], "expected": str(meta[kk][1])[:200]})
     C.sample({"src": meta[3][0][:300], "ctx": jobs[3]["ctx"]})
